@@ -44,6 +44,12 @@ GInit ==
   \* and whether a second path / an array under the path is present
   /\ \A nv \in {1, 2, 3} : \A w \in {1, 2, 4} : \A rep \in BOOLEAN : \A arr \in BOOLEAN :
        PrintT(<<"CASE", ToJson([what |-> "jsonvals", values |-> nv, words |-> w, repeated |-> rep, array |-> arr])>>)
+  \* a term frequency / a gap between two consecutive positions of a term at a switch of the variable-length
+  \* encoding, in a posting list shorter than a block (all of it in the incomplete block) and in a longer one
+  \* (the special documents before and after the bit-packed block)
+  /\ \A sw \in VintSwitches : \A v \in {sw - 1, sw, sw + 1} : \A kind \in {"tf", "gap"} : \A ll \in {3, BlockLen + 72} :
+       \A o \in (IF kind = "gap" THEN {"pos", "nn"} ELSE {"pos", "frq", "nn"}) :
+         PrintT(<<"CASE", ToJson([what |-> "vintb", kind |-> kind, value |-> v, listlen |-> ll, opt |-> o])>>)
 GNext == done' = TRUE /\ UNCHANGED ivars
 GSpec == GInit /\ [][GNext]_<<done, ivars>>
 =============================================================================
